@@ -4,6 +4,8 @@ REG = "hippolyzer/lib/proxy/region.py"
 STATE = "hippolyzer/lib/client/state.py"
 SESS = "hippolyzer/lib/proxy/sessions.py"
 MSG = "hippolyzer/lib/base/message/message.py"
+ADDONS = "hippolyzer/lib/proxy/addons.py"
+CAPS = "hippolyzer/lib/proxy/caps.py"
 
 _FILTER = (
     "                    new_events = []\n"
@@ -278,6 +280,29 @@ VARIANTS = [
     {"name": "P R2 inject_event counts the backlog before queueing", "file": REG, "expect": "silent",
      "old": "        self._queued_events.append(event)\n        if self._region:\n",
      "new": "        backlog = len(self._queued_events)\n        self._queued_events.append(event)\n        if self._region and backlog >= 0:\n"},
+    # ---- round 7
+    {"name": "R1 module hook dispatch coerces the verdict to True", "file": ADDONS, "expect": "C17.R1",
+     "old": "            if ret:\n                return ret\n        return cls._try_call_hook(module",
+     "new": "            if ret:\n                return True\n        return cls._try_call_hook(module"},
+    {"name": "P R1 module hook dispatch with a renamed local", "file": ADDONS, "expect": "silent",
+     "old": "            ret = cls._try_call_hook(addon, hook_name, *args, call_async=call_async, **kwargs)\n"
+            "            if ret:\n                return ret\n",
+     "new": "            verdict = cls._try_call_hook(addon, hook_name, *args, call_async=call_async, **kwargs)\n"
+            "            if verdict:\n                return verdict\n"},
+    {"name": "R4 registration prunes dead regions from the session", "file": SESS, "expect": "C17.R4",
+     "old": "        AddonManager.handle_region_registered(self, region)\n",
+     "new": "        self.regions[:] = [r for r in self.regions if r.circuit is None or r.circuit.is_alive]\n"
+            "        AddonManager.handle_region_registered(self, region)\n"},
+    {"name": "P R4 registration only counts the dead regions", "file": SESS, "expect": "silent",
+     "old": "        AddonManager.handle_region_registered(self, region)\n",
+     "new": "        dead = [r for r in self.regions if r.circuit is not None and not r.circuit.is_alive]\n"
+            "        logging.debug(\"%d dead regions\", len(dead))\n"
+            "        AddonManager.handle_region_registered(self, region)\n"},
+    {"name": "X cap data attributed through a lookup that needs a live circuit (CapData.deserialize)", "file": CAPS, "expect": "miss",
+     "old": "            for region in cap_session.regions:\n                if ser_cap_data.region_addr == str(region.circuit_addr):\n"
+            "                    cap_region = region\n",
+     "new": "            cap_region = next((r for r in cap_session.regions if r.circuit\n"
+            "                               and ser_cap_data.region_addr == str(r.circuit_addr)), None)\n"},
     # ---- documented limit
     {"name": "X swallow on any truthy hook result instead of `is True` (value level)", "file": HEM, "expect": "miss",
      "old": "        if handle_event is True:\n", "new": "        if handle_event:\n"},
